@@ -443,3 +443,90 @@ Section Adapter.
   Theorem proxy_mac_eq k iv d : proxy_mac E D k iv d = adapter_mac E k iv d.
   Proof. unfold proxy_mac, adapter_mac. rewrite proxy_encrypt_eq. reflexivity. Qed.
 End Adapter.
+
+(* ---- Counter: +1 modulo 2^(8 * length) on the big-endian value ---------------------------- *)
+
+Lemma from_be_snoc b x : from_be (b ++ [x]) = from_be b * 256 + b2n x.
+Proof. rewrite from_be_app. change (blen [x]) with 1. change (256 ^ 1) with 256. reflexivity. Qed.
+
+Lemma from_be_zeros n : from_be (zeros n) = 0.
+Proof.
+  induction n as [|n IH]; [reflexivity|].
+  replace (zeros (S n)) with (zeros n ++ [x00]).
+  - rewrite from_be_snoc, IH. reflexivity.
+  - unfold zeros. change [x00] with (repeat x00 1). rewrite <- repeat_app. f_equal. lia.
+Qed.
+
+Lemma incr_lsb_spec : forall l r c, incr_lsb l = (r, c) ->
+  length r = length l /\
+  from_be (rev r) + (if c then 256 ^ blen l else 0) = from_be (rev l) + 1.
+Proof.
+  induction l as [|x l IH]; intros r c H.
+  - inversion H; subst. split; reflexivity.
+  - cbn [incr_lsb] in H. cbn [rev]. rewrite from_be_snoc, blen_cons.
+    destruct (b2n x + 1 <? 256) eqn:Ex.
+    + apply N.ltb_lt in Ex. inversion H; subst. split; [reflexivity|].
+      cbn [rev]. rewrite from_be_snoc, b2n_n2b_small by exact Ex. lia.
+    + apply N.ltb_ge in Ex. pose proof (b2n_lt x) as Hx.
+      destruct (incr_lsb l) as [r' c'] eqn:El. inversion H; subst.
+      destruct (IH r' c eq_refl) as [Hl Hv]. split; [cbn [length]; lia|].
+      cbn [rev]. rewrite from_be_snoc. change (b2n x00) with 0.
+      replace (256 ^ (1 + blen l)) with (256 * 256 ^ blen l) by (rewrite N.pow_add_r; reflexivity).
+      destruct c; nia.
+Qed.
+
+Theorem counter_increment_spec c :
+  length (counter_increment c) = length c /\
+  from_be (counter_increment c) = (from_be c + 1) mod 256 ^ blen c.
+Proof.
+  unfold counter_increment. destruct (incr_lsb (rev c)) as [r carry] eqn:E.
+  destruct (incr_lsb_spec _ _ _ E) as [Hl Hv]. rewrite rev_involutive in Hv.
+  assert (Hb : blen (rev c) = blen c) by (unfold blen; rewrite rev_length; reflexivity).
+  rewrite Hb in Hv. rewrite rev_length in Hl.
+  pose proof (from_be_lt c) as Hc. pose proof (from_be_lt (rev r)) as Hr.
+  assert (Hbr : blen (rev r) = blen c) by (unfold blen; rewrite rev_length, Hl; reflexivity).
+  rewrite Hbr in Hr.
+  destruct carry.
+  - split; [apply zeros_length|]. rewrite from_be_zeros.
+    assert (from_be c + 1 = 256 ^ blen c) by lia.
+    rewrite H. symmetry. apply N.mod_same. apply N.pow_nonzero. lia.
+  - split; [rewrite rev_length; exact Hl|].
+    rewrite N.add_0_r in Hv. rewrite Hv. symmetry. apply N.mod_small. lia.
+Qed.
+
+(* Counter(v) and increment() in terms of the counter blocks T_j of SP 800-38A appendix B.1 *)
+Theorem counter_block_spec v :
+  counter_init v = AesSpec.ctr_block v /\ counter_increment (AesSpec.ctr_block v) = AesSpec.ctr_block (v + 1).
+Proof.
+  assert (Hbe : forall a, be 16 a = be 16 (a mod 2 ^ 128)).
+  { intro a. rewrite <- (be_from_be (be 16 a)). rewrite be_length, from_be_be.
+    change (256 ^ N.of_nat 16) with (2 ^ 128). reflexivity. }
+  split; [apply Hbe|].
+  unfold AesSpec.ctr_block.
+  destruct (counter_increment_spec (be 16 (v mod 2 ^ 128))) as [Hl Hv].
+  rewrite be_length in Hl.
+  rewrite <- (be_from_be (counter_increment (be 16 (v mod 2 ^ 128)))), Hl, Hv.
+  rewrite be_blen, from_be_be. change (256 ^ N.of_nat 16) with (2 ^ 128).
+  rewrite N.mod_mod by discriminate. f_equal.
+  rewrite N.add_mod_idemp_l by discriminate. reflexivity.
+Qed.
+
+(* ---- crypto.pad (generated pad_length) is zero_pad ---------------------------------------- *)
+
+Lemma pad_length_eq (n : N) : Z.to_nat (pad_length (Z.of_N n)) = N.to_nat ((16 - n mod 16) mod 16).
+Proof.
+  unfold pad_length.
+  pose proof (N.mod_lt n 16 ltac:(lia)) as Hr. pose proof (N.div_mod n 16 ltac:(lia)) as Hd.
+  set (q := n / 16) in *. set (r := n mod 16) in *.
+  assert (Hz : ((- Z.of_N n) mod 16 = Z.of_N ((16 - r) mod 16))%Z).
+  { rewrite Hd. replace (- Z.of_N (16 * q + r))%Z with (- Z.of_N r + (- Z.of_N q) * 16)%Z by lia.
+    rewrite Z.mod_add by lia.
+    destruct (N.eq_dec r 0) as [->|Hn].
+    - reflexivity.
+    - rewrite (N.mod_small (16 - r)) by lia.
+      symmetry. apply (Z.mod_unique _ _ (-1)%Z); lia. }
+  rewrite Hz, <- N_nat_Z, Nat2Z.id. reflexivity.
+Qed.
+
+Theorem crypto_pad_eq d : crypto_pad d = zero_pad d.
+Proof. unfold crypto_pad, zero_pad. rewrite pad_length_eq. reflexivity. Qed.
